@@ -408,6 +408,9 @@ func runC20(c *Ctx) {
 		for _, k := range []callSite{res[0], gos[0]} {
 			ev := errValueOf(k.Instr)
 			for _, e := range successAlts(fn) {
+				if ei := errResultIndex(fn); ei >= 0 && ev != nil && (e.Results[ei] == ev || unwrap(e.Results[ei]) == unwrap(ev)) {
+					continue // `return X.Resolve(bd)`: the call's own error is what this exit returns
+				}
 				pathEdgeFilter = nilErrEdgeFilter(ev)
 				tr, reach := pathAvoiding(fn, k.Instr, isInstr(e.Ret), nil)
 				pathEdgeFilter = nil
@@ -426,17 +429,13 @@ func runC20(c *Ctx) {
 			okIdx := false
 			bound := int64(-1)
 			if ia != nil && h != nil && strings.HasSuffix(render(ia.X), "$r.children") {
-				// index is the range counter (phi+1), bound is the array length
-				if bo, ok := ia.Index.(*ssa.BinOp); ok && bo.Op == token.ADD {
-					if phi, ok := bo.X.(*ssa.Phi); ok && phi.Block() == h {
-						if _, ok := counterIncrements(phi, func(v ssa.Value) bool { k, ok := constInt(v); return ok && k == -1 }); ok {
-							okIdx = true
-						}
-					}
-				}
-				if iff, ok := h.Instrs[len(h.Instrs)-1].(*ssa.If); ok {
-					if cmp, ok := iff.Cond.(*ssa.BinOp); ok && cmp.Op == token.LSS {
-						bound, _ = constInt(cmp.Y)
+				// index is the loop index of a loop over 0 … 15 (range or counted form)
+				if li, lb, ok := indexLoop(h); ok && ia.Index == li {
+					okIdx = true
+					if k, isK := constInt(lb); isK {
+						bound = k
+					} else if render(lb) == "len($r.children)" || render(lb) == "len(*&$r.children)" {
+						bound = 16
 					}
 				}
 			}
